@@ -73,7 +73,7 @@ def py_subst_chunk(args):
                                             f'raised {type(ex).__name__}: {ex}'))
                         continue
                     want = refpat.msubst(ep, sort, var, bridge.expand(plug), 'drop_mv')
-                    if er != want:
+                    if er != want and rm.norm(er) != rm.norm(want):
                         out['viol'].append(({'op': 'apply_%ssubst' % sort, 'pattern': repr(p), 'var': var, 'plug': repr(plug)},
                                             f'{show_py(p)}[{show_py(plug)}/{sort}{var}] = {rm.show(er)} expected {rm.show(want)}'))
                         continue
@@ -82,7 +82,7 @@ def py_subst_chunk(args):
                     # identity when the variable does not occur (concrete patterns: ground truth free variables)
                     if refpat.is_concrete(ep) and (sort, var) not in refpat.fv(ep):
                         out['identity'] += 1
-                        if er != ep or not (r == p):
+                        if rm.norm(er) != rm.norm(ep):
                             out['viol'].append(({'op': 'identity', 'pattern': repr(p), 'var': var, 'sort': sort, 'plug': repr(plug)},
                                                 f'substituting a variable that does not occur changed {show_py(p)}'))
                     if ep[0] == 'mv':
@@ -148,7 +148,7 @@ def py_inst_chunk(args):
                                     f'raised {type(ex).__name__}: {ex}'))
                 continue
             want = refpat.minst(ep, ed, 'drop_mv')
-            if er != want:
+            if er != want and rm.norm(er) != rm.norm(want):
                 out['viol'].append(({'op': 'instantiate', 'pattern': repr(p), 'delta': repr(delta)},
                                     f'{show_py(p)}.instantiate({ {k: show_py(v) for k, v in delta.items()} }) = {rm.show(er)} expected {rm.show(want)}'))
                 continue
@@ -173,7 +173,7 @@ def py_inst_chunk(args):
                     continue
                 # admissibility of the second step as well
                 want2 = refpat.minst(want, {k: bridge.expand(v) for k, v in d2.items()}, 'drop_mv')
-                if lhs != rhs or lhs != want2:
+                if rm.norm(lhs) != rm.norm(rhs) or rm.norm(lhs) != rm.norm(want2):
                     # only report when the second step respects the constraints of what is left
                     ok2 = True
                     for m in refpat.metavars(want):
